@@ -7,6 +7,9 @@ package saml2
 
 import (
 	"bytes"
+	"crypto/rand"
+	"crypto/sha256"
+	"encoding/binary"
 	"compress/flate"
 	"encoding/json"
 	"io"
@@ -34,7 +37,10 @@ var vx *vxState
 
 type vxAbort struct{ why string }
 
+var vxOrigRandReader = rand.Reader
+
 func vxReset(inputs map[string]interface{}) {
+	rand.Reader = vxOrigRandReader
 	vx = &vxState{inputs: inputs, counters: map[string]int{}, clocks: map[string]*vxClock{}}
 }
 
@@ -303,3 +309,50 @@ func vMaterialised() int64 {
 }
 func vReadAllCalls() int      { return 0 }
 func vReadAllUnlimited() bool { return false }
+
+// ---- C18: scripted crypto/rand ----
+
+type vxRandScript struct {
+	pos   int
+	reads int
+	bytes []byte
+}
+
+var vxRand *vxRandScript
+
+func (r *vxRandScript) byteAt(i int) byte {
+	for len(r.bytes) <= i {
+		k := len(r.bytes)
+		key := fmt.Sprintf("rand.%d", k)
+		if _, ok := vx.inputs[key]; ok {
+			r.bytes = append(r.bytes, byte(vxI64(key)))
+		} else {
+			var ctr [8]byte
+			binary.LittleEndian.PutUint64(ctr[:], uint64(k))
+			h := sha256.Sum256(ctr[:])
+			r.bytes = append(r.bytes, h[0])
+		}
+	}
+	return r.bytes[i]
+}
+
+func (r *vxRandScript) Read(b []byte) (int, error) {
+	n := len(b)
+	if n > 1 && vxI64("rand.shortread") == 1 {
+		n = 1 // the io.Reader contract allows short reads
+	}
+	for i := 0; i < n; i++ {
+		b[i] = r.byteAt(r.pos + i)
+	}
+	r.pos += n
+	r.reads++
+	return n, nil
+}
+
+func vRandInstall() {
+	vxRand = &vxRandScript{}
+	rand.Reader = vxRand
+}
+func vRandPos() int        { return vxRand.pos }
+func vRandByte(i int) byte { return vxRand.byteAt(i) }
+func vHex(b byte) string   { return fmt.Sprintf("%02x", b) }
